@@ -4,7 +4,11 @@ from vcheck import core, svccheck, svc
 
 
 def run(c):
+  # translator: which RPCs every client-library method issues (one writing RPC per single-resource call)
+  from vcheck import clientshapecheck
+  clientshapecheck.translate(c)
   c.proof_stage()
+  clientshapecheck.stage(c)
   backends = ['ram', 'sqlmem']
   cfgs = svccheck.identify_flags(c, backends, report=('metadataAtomic', 'createKeepsInfeasible'))
   n = 120 if c.tier == 'quick' else 1500
